@@ -45,9 +45,14 @@ def model(chk: Check, tier: str, prefix="C13"):
     # the serial client (CfgWrite: a configuration write inside the connect attempt that may fail): instant and suspending callbacks
     serial = (("MC_Client_serial.cfg", "MC_Client_serial_slow.cfg") if tier != "thorough" else
               ("MC_Client_serial_thorough.cfg", "MC_Client_serial_slow_thorough.cfg"))
+    # close() called twice (NCl = 2: the second call while the first is at work, after it returned, or after it was abandoned by its
+    # caller inside its suspending notification)
+    twice = (("MC_Client_close2.cfg", "MC_Client_close2_slow.cfg") if tier != "thorough" else
+             ("MC_Client_close2_thorough.cfg", "MC_Client_close2_slow_thorough.cfg"))
     with ThreadPoolExecutor(2) as ex:
         results += list(ex.map(one, serial))
-    cfgs = cfgs + serial
+        results += list(ex.map(one, twice))
+    cfgs = cfgs + serial + twice
     for cfg, r in zip(cfgs, results):
         for inv in r.violated:
             viol = ""
@@ -59,6 +64,8 @@ def model(chk: Check, tier: str, prefix="C13"):
             chk.gate(tier == "thorough" or r.coverage.get(f"N2KClient.{a}", (0, 0))[0] > 0, f"MC_Client action {a} never taken in {cfg}")
         chk.gate(tier == "thorough" or cfg not in serial or r.coverage.get("N2KClient.CCfgFail", (0, 0))[0] > 0,
                  f"MC_Client action CCfgFail never taken in {cfg}")
+        chk.gate(tier == "thorough" or cfg != "MC_Client_close2_slow.cfg" or r.coverage.get("N2KClient.AbandonClose", (0, 0))[0] > 0,
+                 f"MC_Client action AbandonClose never taken in {cfg}")
         chk.gate(r.distinct > 5000, f"MC_Client/{cfg} explored only {r.distinct} states")
         tot_s += r.distinct
         tot_t += r.generated
